@@ -59,6 +59,26 @@ def chosen_cases(tb, rnd, tier):
     add(comp=['zlib@openssh.com', 'none'])
     add(comp=['zlib', 'zlib@openssh.com'], role='client')
     add(comp=['none', 'foo-comp'])
+    # the two directions of a KEXINIT may differ (RFC 4253 7.1); the report is about the server-to-client lists
+    asym = dict(enc=['aes128-ctr', 'aes256-ctr'], enc_c2s=['aes256-gcm@openssh.com', '3des-cbc'],
+                mac=['hmac-sha2-512-etm@openssh.com', 'umac-128@openssh.com'], mac_c2s=['hmac-sha1', 'hmac-md5', 'hmac-sha2-256'])
+    for role in ('server', 'client'):
+        add(role=role, **asym)
+        add(role=role, enc=asym['enc'], enc_c2s=asym['enc_c2s'])
+        add(role=role, mac=asym['mac'], mac_c2s=asym['mac_c2s'])
+        add(role=role, enc=['chacha20-poly1305@openssh.com'], enc_c2s=[], mac=['hmac-sha2-256'], mac_c2s=[])
+    # peers on which every probe runs (host-key probes for several types, group-exchange probes, rate check): probing must not
+    # change what is listed, or its order
+    import itertools
+    hk = ['rsa-sha2-512', 'rsa-sha2-256', 'ecdsa-sha2-nistp256', 'ssh-ed25519']
+    perms = list(itertools.permutations(hk))
+    if tier == 'quick':
+        perms = perms[::3]
+    kexes = (['curve25519-sha256', 'diffie-hellman-group-exchange-sha256', 'diffie-hellman-group14-sha256'],
+             ['diffie-hellman-group-exchange-sha1', 'diffie-hellman-group-exchange-sha256', 'ecdh-sha2-nistp256'])
+    for i, pm in enumerate(perms):
+        add(kex=kexes[i % 2], key=list(pm), enc=['aes256-ctr', 'aes128-ctr', 'chacha20-poly1305@openssh.com'],
+            mac=['hmac-sha2-512', 'hmac-sha2-256-etm@openssh.com', 'umac-128-etm@openssh.com'], comp=['zlib@openssh.com', 'none'])
     return cases
 
 
@@ -140,6 +160,6 @@ def run(tier):
     ck.cov['rule'] = ('TLC enumerates all lists of length <= %s over {good, warn, fail, unknown, gss(=+/), ""} per category x role; harness-chosen: every '
                       'database name among random neighbours, 300-byte names, non-UTF-8 bytes, duplicates, compression lists; each replayed in plain, '
                       'batch, verbose, JSON. distinct = distinct (role, lists)' % os.environ['VERIF_MAXLEN'])
-    ck.assumptions += ['c2s and s2c lists equal', 'a non-UTF-8 name is shown as its UTF-8 decoding with U+FFFD',
+    ck.assumptions += ['a non-UTF-8 name is shown as its UTF-8 decoding with U+FFFD',
                        'JSON entries whose algorithm is the empty string are not names']
     return ck.finish()
